@@ -1,5 +1,7 @@
 package harness
 
+import "fmt"
+
 func init() {
 	// ------------------------------------------------------------------ C03: durable commits, no uncommitted leakage
 	registerEngine(engPropSpec{
@@ -34,7 +36,20 @@ func init() {
 			if err := e.CrashCheck(); err != nil {
 				return err
 			}
-			return endCommitFresh(e, cs)
+			if err := endCommitFresh(e, cs); err != nil {
+				return err
+			}
+			// the same history with a commit after every single operation (same storage, no reload):
+			// whatever one operation changed must be in the registers right after the next commit
+			e2, err := NewEngine(cs.Cfg, Oracles{FreshAtCommit: true, NoWriteBetweenCommits: true})
+			if err != nil {
+				return err
+			}
+			if err := e2.Run(reschedule(cs.Ops, 6)); err != nil {
+				return fmt.Errorf("with a commit after every operation: %w", err)
+			}
+			e.Stats.Add("commits_after_every_op", e2.Stats.Commits)
+			return nil
 		},
 		Non: func(s *CaseStats) bool {
 			return s.Commits >= 2 && s.Has("multi_slab") && s.Has("crash_point_with_pending_changes") && s.Has("commit>=3_dirty")
@@ -51,7 +66,7 @@ func init() {
 				W: map[string]int{
 					"app": 10, "ins": 6, "set": 9, "rem": 10, "get": 2, "pop": 1, "appN": 4, "remN": 2,
 					"mset": 10, "mget": 2, "mrem": 8, "mpop": 1, "msetN": 3, "mremN": 2, "styp": 2,
-					"reget": 2, "reopen": 1, "commit": 2, "evict": 1, "reattach": 5, "drop": 2,
+					"reget": 2, "reopen": 1, "commit": 2, "evict": 1, "reattach": 5, "drop": 2, "reset": 2, "mreset": 2,
 				},
 				Roots: [][]RootSpec{
 					{{K: "arr", Addr: 1, TI: 1}},
